@@ -459,22 +459,42 @@ def variableType (c : Ctx) (v : RVariable) : Outcome RTy := do
   let tn ← c.s.typeName v.ty.id
   decorateType (.path (keywordReplace (c.o.normalization.fieldType c.cs tn))) v.ty.quals
 
-/-- `graphql_parser_value_to_literal`: only its panics are modelled -/
-def literalOk (s : Schema) : Nat → Value → TypeId → Outcome Unit
-  | 0, _, _ => .error (.unmodelled "literal fuel")
-  | _+1, .var _, _ => panic' "variable in variable"
-  | _+1, .null, _ => panic' "null as default value"
-  | fuel+1, .list xs, ty => xs.forM (fun x => literalOk s fuel x ty)
-  | fuel+1, .obj kvs, ty =>
+/-- `let (is_optional, qualifiers) = match qualifiers.first() { Some(Required) => (false, &qualifiers[1..]), _ => (true, qualifiers) }` -/
+def stripRequired : List Qual → Bool × List Qual
+  | .required :: rest => (false, rest)
+  | quals => (true, quals)
+
+/-- `matches!(value, Value::Null)` -/
+def valueIsNull : Value → Bool
+  | .null => true
+  | _ => false
+
+/-- the qualifiers the elements of a list value are rendered at: `&qualifiers[1..]` under a list level
+    (`(Some(List), Value::List(..))`), `&[]` otherwise (`(_, Value::List(..))`) -/
+def elemQuals : List Qual → List Qual
+  | .list :: rest => rest
+  | _ => []
+
+/-- `graphql_parser_value_to_literal`: only its panics are modelled (the expression: `DefaultLit.lean`).  `quals`: the
+    qualifiers of the position, the outermost first.  `null` at a nullable position is `None` (checked before anything
+    else, as in the Rust); at a non-null position it reaches `scalar_value_to_literal`, which panics. -/
+def literalOk (s : Schema) : Nat → Value → TypeId → List Qual → Outcome Unit
+  | 0, v, _, quals =>
+    if (stripRequired quals).1 && valueIsNull v then pure () else .error (.unmodelled "literal fuel")
+  | _+1, .var _, _, _ => panic' "variable in variable"
+  | _+1, .null, _, quals => if (stripRequired quals).1 then pure () else panic' "null as default value"
+  | fuel+1, .list xs, ty, quals => xs.forM (fun x => literalOk s fuel x ty (elemQuals (stripRequired quals).2))
+  | fuel+1, .obj kvs, ty, _ =>
     match ty.asInput? with
     | none => pure ()
     | some iid => do
       let i ← s.getInput iid
       i.fields.forM fun (fname, fty) =>
         match kvs.find? (·.1 == fname) with
-        | some (_, v) => literalOk s fuel v fty.id
+        -- the member of a `@oneOf` input is forced non-null (`render_object_literal`)
+        | some (_, v) => literalOk s fuel v fty.id (if i.isOneOf then .required :: fty.quals else fty.quals)
         | none => pure ()
-  | _+1, _, _ => pure ()
+  | _+1, _, _, _ => pure ()
 
 def variablesItems (c : Ctx) (op : Nat) : Outcome (List Item) := do
   let vars := c.q.opVariables op
@@ -489,7 +509,7 @@ def variablesItems (c : Ctx) (op : Nat) : Outcome (List Item) := do
     | none => pure none
     | some d => do
       let t ← variableType c v
-      literalOk c.s 64 d v.ty.id
+      literalOk c.s 64 d v.ty.id v.ty.quals
       pure (some ("default_" ++ v.name, t))
   pure [.struct "Variables" (allVariableDerives c.o) c.serdeCrate fs, .defaults dfl]
 
